@@ -235,6 +235,133 @@ def run_natives(rep, binaries, cases, per=120):
     return ncmp, kinds
 
 
+# ------------------------------------------------------------------------------------------------ part 2: limits
+SB_CFG = """SPECIFICATION Spec
+CONSTANTS
+  FramesMax = 64
+  SlotsMax = 16384
+  Widths = {0, 100, 250}
+  Temps = {0, 200}
+  Depths = {%(depths)s}
+  CheckSlots = %(check)s
+  Nests = {10, 200, 30000}
+  SafeNest = 500
+  UnsafeNest = 20000
+INVARIANTS FramesRespected %(inv)s Emit EmitNests
+CHECK_DEADLOCK FALSE
+"""
+
+
+def stack_budget(rep, ideal, tier):
+    d = os.path.join(vlib.WORK, "cfg")
+    os.makedirs(d, exist_ok=True)
+    path = os.path.join(d, "StackBudget_%s_%d.cfg" % ("ideal" if ideal else "asbuilt", os.getpid()))
+    depths = "1, 10, 62, 63, 64, 65, 100" if tier == "quick" else "1, 2, 10, 30, 40, 50, 61, 62, 63, 64, 65, 66, 100, 1000"
+    with open(path, "w") as f:
+        f.write(SB_CFG % {"depths": depths, "check": "TRUE" if ideal else "FALSE", "inv": "SlotsRespected" if ideal else ""})
+    lim, nest = [], []
+    res = run_tlc("StackBudget", path, workers=2, timeout=600, keep_lines=False, tag="c02sb",
+                  on_line=lambda t, o: lim.append(o) if t == "LIMIT" else nest.append(o) if t == "NEST" else None)
+    os.remove(path)
+    if res.violation:
+        rep.violation("StackBudget.tla (%s): TLC reports\n%s" % ("ideal" if ideal else "as built", res.violation[:1500]), {"tlc": res.violation})
+    return lim, nest, res.distinct
+
+
+def limit_src(kind, w, t, depth):
+    locs = "".join("var l%d = %d; " % (i, i) for i in range(w))
+    callee = {"fn": "rec", "method": "self.rec", "lambda": "rec", "fiber": "rec"}[kind]
+    if t:
+        rec = "return [%s%s(n - 1)][%d] + 1;" % ("0, " * t, callee, t)
+    else:
+        rec = "return %s(n - 1) + 1;" % callee
+    body = "%sif n == 0 { return 0; } %s" % (locs, rec)
+    if kind == "method":
+        head = "class R {\n#[constructor] fn new(self) { }\nfn rec(self, n) { %s }\n}\nvar go = R.new().rec;\n" % body
+    elif kind == "lambda":
+        head = "var rec = nil;\nrec = |n| { %s };\nvar go = rec;\n" % body
+    else:
+        head = "fn rec(n) { %s }\nvar go = rec;\n" % body
+    if kind == "fiber":
+        # the chain runs inside a fiber: its first frame plays the role of the script's
+        run = ("fn fbody() { try { print(go(%d)); } catch e { print(type(e)); print(e.context); } }\n"
+               "var fb = Fiber.new(fbody);\nfb.call();\n" % (depth - 1))
+    else:
+        run = "try { print(go(%d)); } catch e { print(type(e)); print(e.context); }\n" % (depth - 1)
+    return head + run + 'print("after");\n'
+
+
+def nest_src(n, op):
+    build = "var v = [];\nvar i = 0;\nwhile i < %d { v = [v]; i = i + 1; }\n" % n
+    if op == "show":
+        return build + "print(String.from(v).len());\n", [str(2 * n + 2)]
+    if op == "eq":
+        return build + "var u = [];\ni = 0;\nwhile i < %d { u = [u]; i = i + 1; }\nprint(u == v);\n" % n, ["true"]
+    if op == "tuplekey":
+        return ("var v = ();\nvar i = 0;\nwhile i < %d { v = (v,); i = i + 1; }\nvar m = {v: 1};\nprint(m.len());\n" % n), ["1"]
+    raise ValueError(op)
+
+
+def run_limits(rep, binaries, lim, nest):
+    findings = {f["key"]: f for f in vlib.load_findings()["findings"] if f["property"] == PROP}
+    ncmp = 0
+    cases = []
+    for c in lim:
+        if not c["clear"]:
+            continue
+        for kind in ("fn", "method", "lambda", "fiber"):
+            cases.append((c, kind))
+    for bname, binary in binaries:
+        items = [{"id": i, "main": limit_src(kind, c["w"], c["t"], c["depth"]), "gc": "default"} for i, (c, kind) in enumerate(cases)]
+        for (c, kind), it, r in zip(cases, items, Pool(binary, "run", timeout=120, max_failures=10 ** 6).map(items)):
+            ncmp += 1
+            what = "%s chain of %d calls, %d locals, %d live temporaries (%s build)" % (kind, c["depth"], c["w"], c["t"], bname)
+            if c["status"] == "overrun":
+                ok = "runs" in r and r["runs"][0].get("ok") and r["runs"][0]["out"][-1:] == ["after"] and r["runs"][0]["out"][0].startswith("<class ")
+                if ok:
+                    continue      # reported: repaired
+                key = "value-stack-overrun-with-wide-frames"
+                if key in findings:
+                    rep.known_finding(key, "%s (%s)" % (findings[key]["what"], key))
+                else:
+                    rep.violation("%s: the value stack is overrun: %r" % (what, {k: r[k] for k in r if k != "events"}), {"case": c, "source": it["main"]})
+                continue
+            want = [str(c["depth"] - 1), "after"] if c["status"] == "done" else ["<class IndexError>", "Stack overflow.", "after"]
+            if "runs" not in r:
+                rep.violation("%s: the host did not survive: %r" % (what, r), {"case": c, "source": it["main"]})
+            elif not r["runs"][0].get("ok") or r["runs"][0]["out"] != want:
+                rep.violation("%s: the specification predicts %r, the implementation gives %r" % (what, want, r["runs"][0]),
+                              {"case": c, "source": it["main"], "expected": want})
+    ncases = []
+    for c in nest:
+        if c["status"] == "unclear":
+            continue
+        for op in ("show", "eq", "tuplekey"):
+            ncases.append((c, op))
+    for bname, binary in binaries:
+        items = []
+        for i, (c, op) in enumerate(ncases):
+            src, want = nest_src(c["nest"], op)
+            # deep cases get a small host stack so that the overflow - if the recursion is unbounded - comes early
+            items.append({"id": i, "main": src, "gc": "default", "stack_mb": 1 if c["status"] == "native-overflow" else 8})
+        for (c, op), it, r in zip(ncases, items, Pool(binary, "run", timeout=300, max_failures=10 ** 6).map(items)):
+            ncmp += 1
+            src, want = nest_src(c["nest"], op)
+            what = "%s on data nested %d deep (%s build)" % (op, c["nest"], bname)
+            survived = "runs" in r and (r["runs"][0].get("ok") and r["runs"][0]["out"] == want or not r["runs"][0].get("ok") and r["runs"][0].get("kind") not in (None, "CompileError"))
+            if c["status"] == "native-overflow":
+                if survived:
+                    continue
+                key = "deeply-nested-data-overflows-native-stack"
+                if key in findings:
+                    rep.known_finding(key, "%s (%s)" % (findings[key]["what"], key))
+                else:
+                    rep.violation("%s: the host did not survive: %r" % (what, r), {"case": c, "source": src})
+            elif "runs" not in r or not r["runs"][0].get("ok") or r["runs"][0]["out"] != want:
+                rep.violation("%s: expected %r, got %r" % (what, want, r), {"case": c, "source": src})
+    return ncmp
+
+
 def main(tier, seed):
     rep = Report(PROP, tier, seed, "model_checking")
     dev = build_harness("dev")
@@ -246,10 +373,26 @@ def main(tier, seed):
     if not cases:
         raise vlib.ToolError("Natives.tla produced no cases")
     ncmp, kinds = run_natives(rep, binaries, cases)
+    lim_i, nest_i, st_i = stack_budget(rep, True, tier)       # the ideal: both budgets respected (invariant SlotsRespected)
+    lim, nest, st_a = stack_budget(rep, False, tier)          # as built: predicted outcomes incl. the recorded overrun
+    nlim = run_limits(rep, binaries, lim, nest)
+    ncmp += nlim
+    states += st_i + st_a
+    rep.coverage["limit_cases"] = nlim
     rep.coverage["states"] = states
     rep.coverage["transitions"] = states
     rep.coverage["traces_validated_against_impl"] = ncmp
     rep.coverage["cases_by_form"] = {f: len(cs) for f, (cs, _) in zip(FORMS, results)}
     rep.coverage["predicted_outcomes"] = dict(kinds)
     rep.coverage["exhaustive"] = True
+    ex = next((c for c in cases if c["r"]["c"] == "err" and c["f"] == "invoke" and len(c["ops"]) == 3), cases[0])
+    rep.sample({"case": ex, "source": case_src(ex)})
+    rep.coverage["rule"] = ("every case TLC enumerates from Natives.tla (forms x adversarial pool, see cases_by_form) is run on the checked and the "
+                            "optimised build inside try/catch: it must complete or raise exactly the predicted error class with exactly the "
+                            "predicted message, and the host process must survive; StackBudget.tla's terminal states give the outcome of call "
+                            "chains of 1..100 frames x 0/100/250 locals x 0/200 live temporaries through functions, methods, lambdas and inside "
+                            "fibers ('Stack overflow.' IndexError exactly at the 65th frame, catchable, execution continues), and of data nested "
+                            "10 / 200 / 30000 deep under printing, ==, and use as a map key")
+    rep.assumptions += ["results of successful operations are not compared here (C05, C12, C13 do that)",
+                        "cases whose predicted slot usage lies within 300 slots of the value-stack capacity are not replayed"]
     return rep.finish()
